@@ -58,6 +58,7 @@ def C03(t0):
         jobs += [(f'{b} encode algebra', curve.check_encode_algebra, (b,)), (f'{b} encode invariance', curve.check_encode_invariance, (b,)),
                  (f'{b} compress/serialise forms', wiring.check_compress_forms, (b,))]
     jobs += [('ark conversions / unary element functions (coordinate level)', curve.check_unary_poly, ()), ('ark batch normalisation (coordinate level)', curve.check_batch_poly, ())]
+    jobs += [('min Element::conditional_select keeps the four coordinates of one operand', curve.check_min_select, ())]
     jobs += S_ZERO()
     obs = par.run_groups(_fl(jobs))
     return finish('C03', obs, t0, level='proof',
@@ -132,6 +133,8 @@ def C05(t0):
     jobs = [(f'min ladder CT={ct} limbs={n}', group.check_min_ladders, (5, (ct, n))) for ct in (True, False) for n in range(1, 6)] + [ ('min ladder wrappers', group.check_scalar_mul_wiring, ('min',)), ('ark scalar-mul wiring', group.check_scalar_mul_wiring, ('ark',)),
             ('ark Mul forms', group.sweep_operator_forms, ('ark', ['src/ark_curve/ops/projective.rs', 'src/ark_curve/ops/affine.rs'])), ('min Mul forms', group.sweep_operator_forms, ('min', ['src/min_curve/ops.rs'])),
             ('ark group order', consts.check_group_order, ('ark',)), ('min group order', consts.check_group_order, ('min',))]
+    from . import curve
+    jobs += [('min Element::conditional_select keeps the four coordinates of one operand (the ladder check models it as a merge)', curve.check_min_select, ())]
     obs = par.run_groups(_fl(jobs))
     return finish('C05', obs, t0, level='proof',
         functions=['min_curve Element::scalar_mul_both::<true|false>, scalar_mul, scalar_mul_vartime', 'all Mul/MulAssign impls (both builds)', 'Group::mul_bigint, AffineRepr::mul_bigint, Element::vartime_multiscalar_mul', 'Element::GENERATOR (order)'],
@@ -146,7 +149,8 @@ def C06(t0):
     jobs = [('ark constructors', group.check_constructors, ()), ('ark decode funnel', wiring.check_decode_funnel, ('ark',)), ('ark curve constants', consts.check_curve_constants, ('ark',)),
             ('ark group order', consts.check_group_order, ('ark',)), ('ark decode algebra (on-curve of decoded points)', curve.check_decode_algebra, ('ark',)),
             ('min decode algebra', curve.check_decode_algebra, ('min',)), ('min curve constants', consts.check_curve_constants, ('min',)),
-            ('ark batch normalisation (coordinate level)', curve.check_batch_poly, ()), ('ark conversions / unary element functions (coordinate level)', curve.check_unary_poly, ())] + S_ZERO()
+            ('ark batch normalisation (coordinate level)', curve.check_batch_poly, ()), ('ark conversions / unary element functions (coordinate level)', curve.check_unary_poly, ()),
+            ('min Element::conditional_select keeps the four coordinates of one operand', curve.check_min_select, ())] + S_ZERO()
     obs = par.run_groups(_fl(jobs))
     return finish('C06', obs, t0, level='proof',
         functions=['AffineRepr::{zero, generator, from_random_bytes, clear_cofactor, mul_by_cofactor_to_group}', 'Group::generator', 'Default for Element/AffinePoint', 'Distribution<Element|AffinePoint>::sample',
@@ -183,6 +187,7 @@ def _jobs_C03():
     for b in ('min', 'ark'):
         jobs += [(f'{b} encode algebra', curve.check_encode_algebra, (b,)), (f'{b} encode invariance', curve.check_encode_invariance, (b,)), (f'{b} compress/serialise forms', wiring.check_compress_forms, (b,))]
     jobs += [('ark conversions / unary element functions (coordinate level)', curve.check_unary_poly, ()), ('ark batch normalisation (coordinate level)', curve.check_batch_poly, ())]
+    jobs += [('min Element::conditional_select keeps the four coordinates of one operand', curve.check_min_select, ())]
     return jobs
 
 def C01(t0):
